@@ -169,6 +169,37 @@ func genE(r *vf.Run, pool *basePool, idx, k int) *input {
 		ents = append(ents, rawEnt{H: tar.Header{Name: "odd", Typeflag: tf, Mode: 0o644, Format: tar.FormatGNU}})
 		what = append(what, fmt.Sprintf("typeflag=%q", tf))
 		p.TarOK = false
+		if directed := (k/12)%2 == 1; directed || rng.Bool() {
+			// several rejected entries: more failing sub-blob writers than workers; in a layer without
+			// payload (total size < workers) divideEntries gives every entry a part of its own.
+			// Every second mode-3 case is that shape on purpose (workers >= 2, workers+1.. odd entries).
+			n := rng.Pick(1, 2, 4, 8, 19)
+			nopayload := rng.Bool()
+			if directed {
+				nopayload = true
+				if p.Workers < 2 {
+					p.Workers = rng.Pick(2, 4)
+				}
+				n = p.Workers + 1 + rng.Intn(6)
+				p.MinChunkSize = 0
+				ents[len(ents)-1].H.Typeflag = tar.TypeCont // the tar reader itself must accept the archive
+			}
+			if nopayload {
+				kept := ents[:0]
+				for _, e := range ents {
+					if (e.H.Typeflag != tar.TypeReg || len(e.Body) == 0) && e.H.Typeflag != tar.TypeLink {
+						kept = append(kept, e)
+					}
+				}
+				ents = kept
+				what = append(what, "no-payload")
+			}
+			for i := 0; i < n; i++ {
+				tf := byte(rng.Pick(int(tar.TypeCont), int(tar.TypeCont), int(tar.TypeCont), 'Z', 'V'))
+				ents = append(ents, rawEnt{H: tar.Header{Name: fmt.Sprintf("odd%d", i), Typeflag: tf, Mode: 0o644, Format: tar.FormatGNU}})
+			}
+			what = append(what, fmt.Sprintf("more-odd=%d", n))
+		}
 	case 4: // many entries
 		n := rng.Pick(60, 200)
 		for i := 0; i < n; i++ {
